@@ -38,6 +38,22 @@ Proof.
     destruct (IH vr eq_refl _ _ _ Er) as [-> ->]. auto.
 Qed.
 
+Lemma const_pairs_inv fuel pairs kvs :
+  const_pairs pairs = Some kvs ->
+  forall s ws s', map_eval_pairs (eval c fuel esc) s pairs = Ok (ws, s') -> ws = kvs /\ s' = s.
+Proof.
+  revert kvs. induction pairs as [|[k x] r IH]; intros kvs H s ws s' He.
+  - inversion H. cbn in He. inversion He. auto.
+  - cbn [const_pairs] in H. destruct k; try discriminate. destruct x; try discriminate.
+    destruct (const_pairs r) as [vr|] eqn:E; cbn [omap] in H; try discriminate. inversion H; subst.
+    cbn [map_eval_pairs] in He. destruct fuel as [|fuel']; [discriminate|].
+    rewrite !eval_const in He. cbn [bind] in He. rewrite eval_const in He. cbn [bind] in He.
+    fold (map_eval_pairs (eval c (S fuel') esc)) in He.
+    destruct (map_eval_pairs (eval c (S fuel') esc) s r) as [[ws1 s1]| | |] eqn:Er; try discriminate.
+    cbn [bind] in He. inversion He; subst.
+    destruct (IH vr eq_refl _ _ _ Er) as [-> ->]. auto.
+Qed.
+
 Lemma fold_chain_inv fuel rest :
   (forall p, In p rest -> fold_inv fuel (snd p)) ->
   forall left v0, is_undef left = false -> fold_chain as_const left rest = Some v0 ->
@@ -72,6 +88,12 @@ Proof.
     destruct (map_eval (eval c fuel esc) s items) as [[ws s1]| | |] eqn:Em; try discriminate.
     cbn [bind] in He. inversion He; subst.
     destruct (const_values_inv fuel items vs E _ _ _ Em) as [-> ->]. auto.
+  - (* EMap *)
+    destruct (const_pairs pairs) as [kvs|] eqn:E; cbn [omap] in H; try discriminate. inversion H; subst.
+    cbn [eval] in He.
+    destruct (map_eval_pairs (eval c fuel esc) s pairs) as [[ws s1]| | |] eqn:Em; try discriminate.
+    cbn [bind] in He. inversion He; subst.
+    destruct (const_pairs_inv fuel pairs kvs E _ _ _ Em) as [-> ->]. auto.
   - (* ENeg *)
     destruct (as_const e) as [x|] eqn:E; cbn [obind] in H; try discriminate.
     cbn [eval] in He. destruct (eval c fuel esc s e) as [[x' s1]| | |] eqn:Ee; try discriminate.
